@@ -19,6 +19,6 @@ CONSTANTS
   Fixed = TRUE
   SampleK = 0
   SampleRoots = 0
-VIEW View
+VIEW GenView
 INVARIANT Emit
 CHECK_DEADLOCK FALSE
